@@ -920,9 +920,13 @@ func getSourceFromFile(file string, reader *sourceReader, fns graph.Nodes, start
 			nodeStart = lineno - margin
 		}
 		nodeEnd := lineno + margin
+		// Both bounds are checked for every node: fns comes in map
+		// iteration order, and a node that lowers the start may also be
+		// the one with the last sampled line.
 		if nodeStart < start {
 			start = nodeStart
-		} else if nodeEnd > end {
+		}
+		if nodeEnd > end {
 			end = nodeEnd
 		}
 		lineNodes[lineno] = append(lineNodes[lineno], n)
